@@ -12,7 +12,7 @@ package database
 // and the real MemDB backend with its batch.
 
 //verif:property C10
-//verif:bound utxo: pre-state of 2 pre-existing outputs, each absent or {type in 0..2, creation height < block height, spent}; block height in [1, 2^62); block = coinbase tx (1 output) + 1..2 ordinary txs (quick: 1 tx of <=2 inputs x <=2 outputs, or 2 txs of 1 input x 1 output; thorough: 2 txs of <=2 x <=2); every input spends a pre-existing output or an output of an earlier tx of the block (double spends included); every output is original / vote / retirement with arbitrary amount (0 included)
+//verif:bound utxo: pre-state of 2 pre-existing outputs, each absent or {type in 0..2, creation height < block height, spent}; block height in [1, 2^62); block = coinbase tx (1 output) + 1..2 ordinary txs (quick: 1 tx of <=2 inputs x <=2 outputs, or 2 txs of 1 input x 1 output; thorough: 2 txs of <=2 x <=2); every input spends a pre-existing output or an output of an earlier ordinary tx of the block (double spends included; by symmetry of the two pre-existing outputs the very first input spends number 0); every output is original / vote / retirement with arbitrary amount (0 included)
 //verif:bound reorganisation view: block b and sibling b' of one ordinary tx each (<= 2 inputs, 1 output) at the same height over 2 pre-existing outputs
 //verif:bound contracts: one contract hash slot; pre-state absent or registered by an earlier tx; block of 2 txs each registering contract X, Y (Y == X or different; contract body of 1..2 symbolic bytes) or nothing; sibling block with one registering tx
 //verif:assume output ids and tx ids are pairwise different concrete hashes (they are collision-free hashes in the real system); the outputs a block creates do not exist in the pre-state
@@ -131,7 +131,10 @@ func verifC10Build(tag int, height uint64, pool []verifC10Cand, nTx, nIn, nOut, 
 			ins, outs = nIn, nOut
 		}
 		for i := 0; i < ins; i++ {
-			c := cands[verifChoice("spend", len(cands))]
+			c := cands[0] // the first input of block b spends pre-existing output 0 (0 and 1 are interchangeable)
+			if tag != 0 || t != 1 || i != 0 {
+				c = cands[verifChoice("spend", len(cands))]
+			}
 			tx.SpentOutputIDs = append(tx.SpentOutputIDs, c.id)
 			if c.vote {
 				tx.Entries[c.id] = verifC10Entry(verifC10Vote, 1)
